@@ -19,10 +19,10 @@ Theorem reject_bad_content_length : forall st v st',
 Proof. exact bad_content_length_rejected. Qed.
 Print Assumptions reject_bad_content_length.
 
-(* a Transfer-Encoding that is taken is empty (no coding named) or exactly "chunked" on HTTP/1.1,
-   and then the declared framing is chunked *)
+(* a Transfer-Encoding that is taken is empty (no coding named) or exactly "chunked" on HTTP/1.1, named for the first time
+   (a second "chunked" is the list "chunked, chunked"), and then the declared framing is chunked *)
 Theorem reject_te_not_chunked_or_http10 : forall st v st',
   field_step st (ID_TRANSFER_ENCODING, v) = Go st' ->
-  v = [] /\ st' = st \/ (st_http11 st = true /\ eq_icase v s_chunked = true /\ st_rlen st' = (-1)%Z).
+  v = [] /\ st' = st \/ (st_http11 st = true /\ eq_icase v s_chunked = true /\ st_rlen st <> (-1)%Z /\ st_rlen st' = (-1)%Z).
 Proof. exact te_step. Qed.
 Print Assumptions reject_te_not_chunked_or_http10.
